@@ -234,24 +234,34 @@ func (u *SPDX23) packageToNode(p *spdx23.Package) *sbom.Node {
 		n.BuildDate = timestamppb.New(*t)
 	}
 
-	// Mmh there is a limitation here on the SPDX libraries. They will not
-	// return the supplier and originator emails as a separate field. Perhaps
-	// we should upstream a fix for that.
+	// The SPDX libraries do not return the supplier and originator emails
+	// as a separate field: split the optional "(email)" suffix here.
 	if p.PackageSupplier != nil && p.PackageSupplier.Supplier != protospdx.NOASSERTION {
-		n.Suppliers = []*sbom.Person{{Name: p.PackageSupplier.Supplier}}
-		if p.PackageSupplier.SupplierType == protospdx.Organization {
-			n.Suppliers[0].IsOrg = true
+		n.Suppliers = []*sbom.Person{
+			spdxActorToPerson(p.PackageSupplier.Supplier, p.PackageSupplier.SupplierType),
 		}
 	}
 
 	if p.PackageOriginator != nil && p.PackageOriginator.Originator != protospdx.NOASSERTION && p.PackageOriginator.Originator != "" {
-		n.Originators = []*sbom.Person{{Name: p.PackageOriginator.Originator}}
-		if p.PackageOriginator.OriginatorType == protospdx.Organization {
-			n.Originators[0].IsOrg = true
+		n.Originators = []*sbom.Person{
+			spdxActorToPerson(p.PackageOriginator.Originator, p.PackageOriginator.OriginatorType),
 		}
 	}
 
 	return n
+}
+
+// spdxActorToPerson converts an SPDX actor ("Name" or "Name (email)") to a
+// person, moving the optional trailing email address to its own field.
+func spdxActorToPerson(actor, actorType string) *sbom.Person {
+	person := &sbom.Person{Name: actor, IsOrg: actorType == protospdx.Organization}
+	if i := strings.LastIndex(actor, " ("); i > 0 && strings.HasSuffix(actor, ")") {
+		email := actor[i+2 : len(actor)-1]
+		if strings.Contains(email, "@") && !strings.ContainsAny(email, " ()") {
+			person.Name, person.Email = actor[:i], email
+		}
+	}
+	return person
 }
 
 // spdxDateToTime is a utility function that turns a date into a go time.Time
